@@ -27,6 +27,10 @@ class TooLarge(Exception):
     pass
 
 
+DIVERSIFY = None      # a random.Random during cross-check sampling
+_DIVERSE = {}
+
+
 def mval(m, t):
     """Value of a scalar term under the model (with completion)."""
     t = S.num(t) if not isinstance(t, (S.Cx, S.SumT)) else t
@@ -36,6 +40,17 @@ def mval(m, t):
         raise TooLarge('sum term in input')
     if not S.is_z3(t):
         return t
+    if DIVERSIFY is not None and z3.is_real(t) and z3.is_app(t) and t.decl().kind() == z3.Z3_OP_UNINTERPRETED:
+        # cross-check sampling: a real-valued input element the model leaves open (a don't-care: the partial
+        # model satisfies the path condition for every completion) gets a small non-zero value instead of 0
+        v0 = m.eval(t, model_completion=False)
+        if not (z3.is_rational_value(v0) or z3.is_algebraic_value(v0)):
+            key = t.get_id()
+            if key not in _DIVERSE:
+                _DIVERSE[key] = (t, Fraction(DIVERSIFY.choice([-7, -5, -3, -2, -1, 1, 2, 3, 5, 6, 9]), 4))
+                if os.environ.get('LVC_DEBUG_REPLAY'):
+                    print('DIVERSIFY', t, _DIVERSE[key][1], file=sys.stderr)
+            return _DIVERSE[key][1]
     v = m.eval(t, model_completion=True)
     v = z3.simplify(v)
     if z3.is_int_value(v):
@@ -285,7 +300,7 @@ def discharge_pinned(ob, timeout_ms=10000, rounds=80):
     Counterexample-guided: solve; evaluate every math application under the model; wherever the model's
     value differs from the real function at the model's (constant) argument values, add the true fact
     f(constants) = value and solve again.  Only facts about constant arguments are ever added, so a 'failed'
-    verdict always carries a model in which every math function has its real value (to 1e-9)."""
+    verdict always carries a model in which every math function has exactly its (double precision) value."""
     import time as _t
     from . import prove
     table = _math_table()
@@ -345,8 +360,8 @@ def discharge_pinned(ob, timeout_ms=10000, rounds=80):
                 continue
             cur = num(m.eval(e, model_completion=True))
             want = Fraction(*float(val).as_integer_ratio())
-            if cur is not None and abs(cur - want) <= Fraction(1, 10 ** 9) * max(1, abs(want)):
-                continue
+            if cur is not None and cur == want:
+                continue        # (exactly: a tolerance here would hand the solver slack to exploit)
             key = (e.decl().name(), tuple(args))
             if key in have:
                 continue
